@@ -41,6 +41,102 @@ struct EvBase {
     bool intact() const { return p0 == mix((uint32_t)id) && p1 == mix(p0 ^ 0x9e3779b9U); }
 };
 
+// ---------------------------------------------------------------- event zoo (C20)
+// Events of assorted size / alignment / special-member traits; the non-trivial ones keep a
+// ledger of live instances so that a missing or doubled destructor call, a constructor over a
+// live address or a damaged copy is noticed even where no sanitizer would object.
+struct ZooLedger {
+    std::map<const void*, int> live;     // address -> id
+    long ctor = 0, dtor = 0, errors = 0;
+    void err(const char* what, const void* p, int id) {
+        ++errors;
+        char tmp[128]; snprintf(tmp, sizeof tmp, "LEDGER %s %p %d", what, p, id);
+        tr().line(tmp);
+    }
+    void born(const void* p, int id) {
+        ++ctor;
+        if (live.count(p)) err("construct-over-live", p, id);
+        live[p] = id;
+    }
+    void died(const void* p, int id) {
+        ++dtor;
+        auto it = live.find(p);
+        if (it == live.end()) { err("destroy-not-live", p, id); return; }
+        if (it->second != id) err("destroy-id-mismatch", p, id);
+        live.erase(it);
+    }
+};
+inline ZooLedger& zoo() { static ZooLedger z; return z; }
+
+enum { Z_TRIVIAL = 0, Z_NONTRIVIAL = 1, Z_THROWING_MOVE = 2, Z_SELFREF = 3, Z_DTOR_ONLY = 4, Z_NOTHROW_MOVE = 5 };
+
+template <size_t Size, size_t Align> struct alignas(Align) ZooPad : EvBase {
+    unsigned char pad[Size];
+    ZooPad() : EvBase() { fill(); }
+    explicit ZooPad(int i) : EvBase(i) { fill(); }
+    void fill() { for (size_t k = 0; k < Size; ++k) pad[k] = (unsigned char)(mix((uint32_t)id + (uint32_t)k * 31U) & 0xff); }
+    bool pad_ok() const {
+        for (size_t k = 0; k < Size; ++k) if (pad[k] != (unsigned char)(mix((uint32_t)id + (uint32_t)k * 31U) & 0xff)) return false;
+        return true;
+    }
+    bool aligned() const { return (reinterpret_cast<uintptr_t>(this) % Align) == 0; }
+};
+
+template <size_t Size, size_t Align, int Trait> struct Zoo;
+
+template <size_t Size, size_t Align> struct Zoo<Size, Align, Z_TRIVIAL> : ZooPad<Size, Align> {
+    Zoo() {}
+    explicit Zoo(int i) : ZooPad<Size, Align>(i) {}
+    bool intact() const { return EvBase::intact() && this->pad_ok() && this->aligned(); }
+};
+template <size_t Size, size_t Align> struct Zoo<Size, Align, Z_NONTRIVIAL> : ZooPad<Size, Align> {
+    Zoo() { zoo().born(this, this->id); }
+    explicit Zoo(int i) : ZooPad<Size, Align>(i) { zoo().born(this, this->id); }
+    Zoo(const Zoo& o) : ZooPad<Size, Align>(o) { if (!o.intact0()) zoo().err("copy-source-damaged", &o, o.id); zoo().born(this, this->id); }
+    Zoo& operator=(const Zoo& o) { ZooPad<Size, Align>::operator=(o); zoo().live[this] = this->id; return *this; }
+    ~Zoo() { zoo().died(this, this->id); }
+    bool intact0() const { return EvBase::intact() && this->pad_ok(); }
+    bool intact() const { return intact0() && this->aligned() && zoo().live.count(this); }
+};
+template <size_t Size, size_t Align> struct Zoo<Size, Align, Z_NOTHROW_MOVE> : ZooPad<Size, Align> {
+    Zoo() { zoo().born(this, this->id); }
+    explicit Zoo(int i) : ZooPad<Size, Align>(i) { zoo().born(this, this->id); }
+    Zoo(const Zoo& o) : ZooPad<Size, Align>(o) { zoo().born(this, this->id); }
+    Zoo(Zoo&& o) noexcept : ZooPad<Size, Align>(o) { zoo().born(this, this->id); }
+    Zoo& operator=(const Zoo& o) { ZooPad<Size, Align>::operator=(o); zoo().live[this] = this->id; return *this; }
+    ~Zoo() { zoo().died(this, this->id); }
+    bool intact() const { return EvBase::intact() && this->pad_ok() && this->aligned() && zoo().live.count(this); }
+};
+template <size_t Size, size_t Align> struct Zoo<Size, Align, Z_THROWING_MOVE> : ZooPad<Size, Align> {
+    Zoo() { zoo().born(this, this->id); }
+    explicit Zoo(int i) : ZooPad<Size, Align>(i) { zoo().born(this, this->id); }
+    Zoo(const Zoo& o) : ZooPad<Size, Align>(o) { zoo().born(this, this->id); }
+    Zoo(Zoo&& o) noexcept(false) : ZooPad<Size, Align>(o) { zoo().born(this, this->id); }   // forces the heap path of backmp11
+    Zoo& operator=(const Zoo& o) { ZooPad<Size, Align>::operator=(o); zoo().live[this] = this->id; return *this; }
+    ~Zoo() { zoo().died(this, this->id); }
+    bool intact() const { return EvBase::intact() && this->pad_ok() && this->aligned() && zoo().live.count(this); }
+};
+template <size_t Size, size_t Align> struct Zoo<Size, Align, Z_SELFREF> : ZooPad<Size, Align> {
+    const Zoo* self;
+    Zoo() : self(this) { zoo().born(this, this->id); }
+    explicit Zoo(int i) : ZooPad<Size, Align>(i), self(this) { zoo().born(this, this->id); }
+    Zoo(const Zoo& o) : ZooPad<Size, Align>(o), self(this) { if (o.self != &o) zoo().err("selfref-source-relocated", &o, o.id); zoo().born(this, this->id); }
+    Zoo(Zoo&& o) noexcept : ZooPad<Size, Align>(o), self(this) { if (o.self != &o) zoo().err("selfref-source-relocated", &o, o.id); zoo().born(this, this->id); }
+    Zoo& operator=(const Zoo& o) { ZooPad<Size, Align>::operator=(o); self = this; zoo().live[this] = this->id; return *this; }
+    ~Zoo() { if (self != this) zoo().err("selfref-relocated-at-destroy", this, this->id); zoo().died(this, this->id); }
+    bool intact() const { return EvBase::intact() && this->pad_ok() && this->aligned() && self == this && zoo().live.count(this); }
+};
+template <size_t Size, size_t Align> struct Zoo<Size, Align, Z_DTOR_ONLY> : ZooPad<Size, Align> {
+    Zoo() {}
+    explicit Zoo(int i) : ZooPad<Size, Align>(i) {}
+    // implicit copy; the destructor poisons the object so that a second destruction or a use after it shows
+    ~Zoo() {
+        if (!EvBase::intact() || !this->pad_ok()) zoo().err("destroy-damaged-or-twice", this, this->id);
+        this->p0 ^= 0x5a5a5a5aU;
+    }
+    bool intact() const { return EvBase::intact() && this->pad_ok() && this->aligned(); }
+};
+
 // describe any event object that reaches a callback
 template <class E, class = void> struct has_direct_entry : std::false_type {};
 template <class E> struct has_direct_entry<E, std::void_t<typename E::direct_entry>> : std::true_type {};
@@ -69,7 +165,9 @@ inline std::string evdesc_any(const std::type_info& ti, const void* a, bool is_s
 
 template <class E> std::string evdesc(E const& e) {
     if constexpr (std::is_base_of_v<EvBase, E>) {
-        return evd_base(E::vf_name(), e);
+        char tmp[96];
+        snprintf(tmp, sizeof tmp, "%s:%d:%d", E::vf_name(), e.id, e.intact() ? 1 : 0);
+        return tmp;
     } else if constexpr (std::is_same_v<E, boost::msm::front::none>) {
         return "none:-1:1";
     } else if constexpr (std::is_same_v<E, boost::any>) {
